@@ -46,5 +46,12 @@ print(f"[{rid}] suite={'-' if not suite else ('ok' if meta.get('suite_ok') else 
 if keep:
     d = f"/verif/refactors/{rid}"
     os.makedirs(d, exist_ok=True)
+    try:   # keep hand-written annotations across re-evaluations
+        old = json.load(open(os.path.join(d, "meta.json")))
+        for k in ("rekeyed_known_findings", "note"):
+            if k in old:
+                meta[k] = old[k]
+    except (OSError, ValueError):
+        pass
     shutil.copy(patch, os.path.join(d, "patch.diff"))
     json.dump(meta, open(os.path.join(d, "meta.json"), "w"), indent=1)
